@@ -50,11 +50,13 @@ Fixpoint nmin (l : list nat) : nat :=     (* 0 dominates, then 2, then 1 *)
 
 (* agreement of two circuits on a list of assignments *)
 Definition eq_den (c1 c2 : circuit) (ys : list asg) : nat :=
+  let c1 := prep c1 in let c2 := prep c2 in
   nmin (map (fun y => ocmp (den c1 y) (den c2 y)) ys).
 Definition eq_den_res (r : res circuit) (c2 : circuit) (ys : list asg) : nat :=
   match r with Ok c1 => eq_den c1 c2 ys | Err _ => 2 end.
 (* agreement of a circuit with externally supplied values (one matrix outputs x units per assignment) *)
 Definition den_vs (c : circuit) (ys : list asg) (vals : list (list cvec)) : nat :=
+  let c := prep c in
   if length ys =? length vals then
     nmin (map (fun p => ocmp (den c (fst p)) (Some (snd p))) (combine ys vals))
   else 0.
@@ -86,21 +88,26 @@ Definition bf_integral (c : circuit) (zs : list (nat * nat)) (y : asg) : option 
           Some (nth k m []))
        (combine (seq 0 (length (outs c))) (out_scopes c)).
 Definition bf_integrate_check (c ci : circuit) (zs : list (nat * nat)) (ys : list asg) : nat :=
+  let c := prep c in let ci := prep ci in
   nmin (map (fun y => ocmp (den ci y) (bf_integral c zs y)) ys).
 
 (* products: output (i, j) = kron (out i of a) (out j of b) *)
 Definition kron_outputs (a b : list cvec) : list cvec := pairs vkron a b.
 Definition product_check (a b p : circuit) (ys : list asg) : nat :=
+  let a := prep a in let b := prep b in let p := prep p in
   nmin (map (fun y => ocmp (den p y)
                          (match den a y, den b y with Some x, Some z => Some (kron_outputs x z) | _, _ => None end)) ys).
 
 Definition conj_check (c cc : circuit) (ys : list asg) : nat :=
+  let c := prep c in let cc := prep cc in
   nmin (map (fun y => ocmp (den cc y) (match den c y with Some m => Some (map (map cconj) m) | None => None end)) ys).
 
 Definition evidence_check (c ce : circuit) (obs : asg) (ys : list asg) : nat :=
+  let c := prep c in let ce := prep ce in
   nmin (map (fun y => ocmp (den ce y) (den c (obs ++ y))) ys).
 
 Definition concat_check (cs : list circuit) (cc : circuit) (ys : list asg) : nat :=
+  let cs := map prep cs in let cc := prep cc in
   nmin (map (fun y => ocmp (den cc y)
         (fold_right (fun c acc => match den c y, acc with Some m, Some r => Some (m ++ r) | _, _ => None end) (Some []) cs)) ys).
 
